@@ -49,7 +49,7 @@ func init() {
 		Rule: "generated two-goroutine scenarios under the race detector: a producer (event sizes boundary biased, chunkings, flush points) and a consumer (reader " +
 			"sections of generated length, partial reads continuing in the next section, ACK batches) run concurrently on one queue on the simulated disk, with " +
 			"generated yield patterns; page size 1024/4096, small write buffers, bounded (retry on full) and unbounded files; oracle: the consumer receives exactly " +
-			"the produced sequence in order and byte-identical, ACK never exceeds what it consumed, both goroutines finish (watchdog 120 s), the race detector is " +
+			"the produced sequence in order and byte-identical, ACK never exceeds what it consumed, after every ACK Active() >= (Flushed-callback total read before the call) - ACKed,  both goroutines finish (watchdog 120 s), the race detector is " +
 			"silent, afterwards Pending==0 and a fresh reader drains nothing; non-trivial = >=1 ACK transaction ran while the producer had not finished, >=1 " +
 			"event crossed a page, >= 8 events; distinct = distinct scenario hash",
 		Assume: []string{
